@@ -102,7 +102,6 @@ def contains (s input : Segment α) : Res Bool :=
 def getIntersectionPt (s input : Segment α) : Option (α × α) :=
   let a := s.stop - s.start
   let b := input.stop - input.start
-  if a.isSameDirection b then none else
   let normal := a.cross b
   let delta := s.start - input.start
   if Num.abs (delta.dot normal) >. (1e-5 : α) * normal.length then none else
